@@ -662,6 +662,9 @@ func (ss *SpecSet) ParseContractText(pkgPath, file, text string) error {
 			if err != nil {
 				return fmt.Errorf("%s:%d: %v", file, c.n, err)
 			}
+			if prev, dup := ss.Preds[name]; dup {
+				return fmt.Errorf("%s:%d: pred %s is already defined (package %s): predicate names are global", file, c.n, name, prev.Pkg)
+			}
 			ss.Preds[name] = &PredDef{Name: name, Params: params, Body: e, Pkg: pkgPath}
 			cur, curLoop = nil, nil
 		case "ghost":
